@@ -387,7 +387,12 @@ func takePenalty(currentDB *state.StateDB, val *state.Validator, penaltyAmount *
 		obligation.Div(obligation, big.NewInt(int64(params.CommissionRateBase)))
 		currTotal.Sub(currTotal, obligation)
 	}
-	per, rem := new(big.Int).QuoRem(currTotal, val.Stake, new(big.Int))
+	// A validator whose tokens do not make up one stake unit has Stake == 0:
+	// nothing can be shared per stake, everything falls to the validator itself.
+	per, rem := new(big.Int), new(big.Int).Set(currTotal)
+	if val.Stake.Sign() > 0 {
+		per.QuoRem(currTotal, val.Stake, rem)
+	}
 	selfPenalty := new(big.Int).Mul(per, val.SelfStake)
 	selfPenalty.Add(selfPenalty, rem)
 	selfPenalty.Add(selfPenalty, obligation)
